@@ -70,8 +70,31 @@ impl Check for C02 {
             8_000
         }
     }
-    fn gen_plan(&self, seed: u64, _idx: u64, _t: bool) -> Value {
+    fn gen_plan(&self, seed: u64, idx: u64, _t: bool) -> Value {
         let mut g = Gen::new(seed, "c02");
+        if idx % 4 == 3 {
+            // two real sessions, 2-6 tasks opening streams CONCURRENTLY and writing id-tagged content in
+            // both directions, some chunks at and above the 16-bit frame boundary
+            let big = g.chance(40);
+            let net = gen_net(&mut g, big, false);
+            let n = g.range(2, 6);
+            let mut budget: i64 = if net["pipe"]["one_byte_ppm"].as_u64().unwrap_or(0) > 10_000 { 4_000 } else if big { 300_000 } else { 30_000 };
+            let mut dir = |g: &mut Gen| -> Vec<u64> {
+                (0..g.range(1, 4))
+                    .map(|_| {
+                        let mut s = chunk_size(g, big) as i64;
+                        if s * n as i64 > budget {
+                            s = 50;
+                        }
+                        budget -= s * n as i64;
+                        s as u64
+                    })
+                    .collect()
+            };
+            let up = dir(&mut g);
+            let down = dir(&mut g);
+            return json!({"net": net, "side": "pair", "tasks": n, "up": up, "down": down, "api": *g.pick(&["direct", "queued"]), "stagger_us": *g.pick(&[0u64, 0, 1, 40]), "scheme": gen_scheme_small(&mut g)});
+        }
         let net = gen_net(&mut g, false, true);
         let side = if g.chance(60) { "server" } else { "client" };
         let n = g.range(3, 40);
@@ -119,6 +142,9 @@ impl Check for C02 {
     }
     fn run<'a>(&'a self, plan: &'a Value) -> ScenFut<'a> {
         Box::pin(async move {
+            if plan["side"] == "pair" {
+                return run_pair(plan).await;
+            }
             let mut out = Outcome::ok();
             let cfg = crate::sim::pipe_cfg_from(&plan["net"]["pipe"]).unwrap_or_default();
             let rbuf = plan["rbuf"].as_u64().unwrap_or(8192) as usize;
@@ -347,4 +373,144 @@ impl Check for C02 {
     fn assumptions(&self) -> Vec<&'static str> {
         vec!["re-SYN of an id that is still open is not judged (same id, not a different stream)", "concurrent-writer isolation through real sessions is exercised by C01/C11 (per-stream tagged contents)"]
     }
+}
+
+
+/// id-tagged content both ways over concurrently opened streams of two real sessions
+async fn run_pair(plan: &Value) -> Outcome {
+    use bytes::Bytes;
+    let mut out = Outcome::ok();
+    let cfg = crate::sim::pipe_cfg_from(&plan["net"]["pipe"]).unwrap_or_default();
+    let scheme = plan["scheme"].as_str().unwrap_or("stop=0");
+    let mut pair = crate::tiera::make_pair(factory(scheme), factory(scheme), None, cfg.clone(), cfg, false).await;
+    let n = plan["tasks"].as_u64().unwrap_or(2) as usize;
+    let u64s = |v: &Value| -> Vec<u64> { v.as_array().map(|a| a.iter().filter_map(|x| x.as_u64()).collect()).unwrap_or_default() };
+    let up = u64s(&plan["up"]);
+    let down = u64s(&plan["down"]);
+    let up_total: usize = up.iter().sum::<u64>() as usize;
+    let down_total: usize = down.iter().sum::<u64>() as usize;
+    let queued = plan["api"] == "queued";
+    // server: for every announced stream read `up_total` bytes tagged with ITS id, write `down` tagged with its id
+    let server = pair.server.clone();
+    let (down2, n2) = (down.clone(), n);
+    let srv = anytls_simnet::spawn(async move {
+        let mut hs = Vec::new();
+        for _ in 0..n2 {
+            let Ok(Some(st)) = timeout(Duration::from_secs(120), pair.new_streams.recv()).await else { break };
+            let (srv2, d3) = (server.clone(), down2.clone());
+            hs.push(anytls_simnet::spawn(async move {
+                let id = st.id();
+                let data = content(0x5000_0000 | id as u64, d3.iter().sum::<u64>() as usize);
+                let mut off = 0;
+                for c in d3 {
+                    let _ = srv2.write_data_frame(id, Bytes::copy_from_slice(&data[off..off + c as usize])).await;
+                    off += c as usize;
+                }
+                (id, read_all(&st, up_total).await)
+            }));
+        }
+        let mut res = Vec::new();
+        for h in hs {
+            if let Ok(r) = h.await {
+                res.push(r);
+            }
+        }
+        res
+    });
+    let mut hs = Vec::new();
+    for t in 0..n {
+        let (c, up2) = (pair.client.clone(), up.clone());
+        let stagger = plan["stagger_us"].as_u64().unwrap_or(0) * t as u64;
+        hs.push(anytls_simnet::spawn(async move {
+            if stagger > 0 {
+                tokio::time::sleep(Duration::from_micros(stagger)).await;
+            }
+            let (st, _rx) = match timeout(Duration::from_secs(120), c.open_stream()).await {
+                Ok(Ok(x)) => x,
+                _ => return None,
+            };
+            c.disable_buffering();
+            let id = st.id();
+            let data = content(0x7000_0000 | id as u64, up2.iter().sum::<u64>() as usize);
+            let mut off = 0;
+            for ch in up2 {
+                let b = Bytes::copy_from_slice(&data[off..off + ch as usize]);
+                off += ch as usize;
+                if queued {
+                    let _ = st.send_data(b);
+                } else if timeout(Duration::from_secs(300), c.write_data_frame(id, b)).await.map(|r| r.is_err()).unwrap_or(true) {
+                    return None;
+                }
+            }
+            Some((id, read_all(&st, down_total).await, st))
+        }));
+    }
+    let mut ids = std::collections::BTreeSet::new();
+    let mut keep = Vec::new();
+    for h in hs {
+        match h.await {
+            Ok(Some((id, (got, eof), st))) => {
+                if !ids.insert(id) {
+                    out.viol("isolation", "same-id-for-two-open-streams", format!("two concurrently opened streams were both given id {}", id));
+                }
+                let want = content(0x5000_0000 | id as u64, down_total);
+                if got != want || eof {
+                    let kind = if got.len() > want.len() || !want.starts_with(&got) { "foreign-or-altered-bytes" } else { "bytes-missing-or-ended" };
+                    out.viol("isolation", format!("concurrent-streams:{}:down", kind), format!("stream {} (client side) received {} bytes (end-of-stream: {}), its own peer sent {} bytes tagged with its id", id, got.len(), eof, want.len()));
+                }
+                keep.push(st);
+            }
+            Ok(None) => out.viol("isolation", "concurrent-streams:operation-failed", "open or write failed without any fault"),
+            Err(e) => out.viol("harness", "task", format!("{}", e)),
+        }
+    }
+    match timeout(Duration::from_secs(400), srv).await {
+        Ok(Ok(res)) => {
+            if res.len() != n {
+                out.viol("isolation", "concurrent-streams:stream-count", format!("{} streams were opened, the server handled {}", n, res.len()));
+            }
+            for (id, (got, eof)) in res {
+                let want = content(0x7000_0000 | id as u64, up_total);
+                if got != want || eof {
+                    let kind = if got.len() > want.len() || !want.starts_with(&got) { "foreign-or-altered-bytes" } else { "bytes-missing-or-ended" };
+                    out.viol("isolation", format!("concurrent-streams:{}:up", kind), format!("stream {} (server side) received {} bytes (end-of-stream: {}), its own peer sent {} bytes tagged with its id", id, got.len(), eof, want.len()));
+                    break;
+                }
+            }
+        }
+        _ => out.viol("isolation", "concurrent-streams:server-side-hang", "the server side did not finish"),
+    }
+    out.viols.truncate(3);
+    out.nontrivial = true;
+    out.summary = json!({"side": "pair", "tasks": n, "up": up, "down": down});
+    drop(keep);
+    out
+}
+
+/// read until `want` bytes arrived (then make sure nothing more follows shortly); returns (bytes, premature end)
+async fn read_all(st: &Arc<Stream>, want: usize) -> (Vec<u8>, bool) {
+    let rd = st.reader();
+    let mut got = Vec::new();
+    let mut b = vec![0u8; 8192];
+    while got.len() < want {
+        let r = {
+            let mut g = rd.lock().await;
+            timeout(Duration::from_secs(120), g.read(&mut b)).await
+        };
+        match r {
+            Ok(Ok(0)) | Ok(Err(_)) => return (got, true),
+            Ok(Ok(k)) => got.extend_from_slice(&b[..k]),
+            Err(_) => return (got, false),
+        }
+    }
+    let r = {
+        let mut g = rd.lock().await;
+        timeout(Duration::from_secs(2), g.read(&mut b)).await
+    };
+    if let Ok(Ok(k)) = r {
+        if k > 0 {
+            got.extend_from_slice(&b[..k]);
+        }
+    }
+    (got, false)
 }
